@@ -23,6 +23,9 @@ pub enum Case16 {
     Refuse(BadCtor),
     /// equality of x (dims, vals) against variants
     Equality { dims: Vec<usize>, vals: Vec<f64> },
+    /// a construction that must be refused (twice in a row), then every constructor on a valid shape in the same
+    /// thread: a refusal leaves nothing behind
+    AfterRefusal { bad: BadCtor, dims: Vec<usize>, vals: Vec<f64> },
 }
 
 #[derive(Clone, Debug, Serialize, Deserialize)]
@@ -340,6 +343,7 @@ impl CaseKind for Case16 {
             Case16::Special { dims } => numel(dims) + dims.len(),
             Case16::Construct { vals, dims } | Case16::Equality { vals, dims } => vals.len() + dims.len(),
             Case16::Refuse(_) => 4,
+            Case16::AfterRefusal { vals, dims, .. } => vals.len() + dims.len() + 4,
         }
     }
     fn sample(&self) -> Value {
@@ -348,6 +352,7 @@ impl CaseKind for Case16 {
             Case16::Special { dims } => json!({"special-values": dims}),
             Case16::Equality { dims, .. } => json!({"equality": dims}),
             Case16::Refuse(b) => json!({"refuse": format!("{:?}", b)}),
+            Case16::AfterRefusal { bad, dims, .. } => json!({"refuse-twice": format!("{:?}", bad), "then-construct": dims}),
         }
     }
     fn run(&self) -> Outcome {
@@ -368,6 +373,13 @@ impl CaseKind for Case16 {
             Case16::Refuse(b) => {
                 k.s(&format!("{:?}", b));
                 (run_refuse(b), true, "refusal")
+            }
+            Case16::AfterRefusal { bad, dims, vals } => {
+                k.s(&format!("after{:?}", bad)).us(dims);
+                let r = run_refuse(bad)
+                    .and_then(|_| run_refuse(bad).map_err(|(kd, d)| (format!("{}:when-repeated", kd), format!("the same construction, tried a second time: {}", d))))
+                    .and_then(|_| run_construct(dims, vals).map_err(|(kd, d)| (format!("{}:after-a-refused-construction", kd), format!("after a refused construction ({:?}) in the same thread: {}", bad, d))));
+                (r, true, "refusal-then-construction")
             }
         };
         let classes = vec![format!("kind:{}", class)];
@@ -472,6 +484,17 @@ pub fn run(ctx: &Ctx) -> i32 {
             // position-dependent values (a wrong element is visible), exact in both float widths
             let vals: Vec<f64> = (0..n).map(|k| ((k % 4093) as f64) - 2000.0 + ((k / 4093) as f64) * 0.25).collect();
             Some(if i % 2 == 0 { Case16::Construct { dims: d, vals } } else { Case16::Equality { dims: d, vals } })
+        }));
+    }
+    // a refusal (tried twice) followed by valid constructions in the same thread
+    {
+        let small: Vec<Vec<usize>> = vec![vec![2, 2], vec![3], vec![2, 1, 2], vec![1, 3], vec![2, 3, 2]];
+        let step = (bad.len() / t.pick(400, 4000)).max(1);
+        let picks: Vec<usize> = (0..bad.len()).step_by(step).collect();
+        st.merge(ctx.run_indexed("refused-then-valid-constructions", picks.len() as u64, None, |i| {
+            let d = small[(i as usize) % small.len()].clone();
+            let vals = iota(numel(&d), 7.0, 1.0);
+            Some(Case16::AfterRefusal { bad: bad[picks[i as usize]].clone(), dims: d, vals })
         }));
     }
     let (max_size, total) = t.pick((7usize, 48000u64), (10, 300000));
